@@ -7,8 +7,12 @@ package main
 //     workers x chunk counts x input batch sizes x encodings of the merged map (level "lib"),
 //   - the real binaries `obiuniq [-m k] [-c ci] [--no-singleton] [--in-memory] [--chunk-count n]`
 //     (level "bin") and `obiuniq -m k | obidemerge -d k | obiuniq -m k` (level "law"),
+//   - two first passes (one per part of the bag, any cut) whose real output records are given to a
+//     second pass with the same options (levels "pass2": library objects, "pass2bin": files),
 //   and the decoded output is compared, as a multiset of (sequence, category values, count,
-//   merged_k vector), with the set the specification assigns to the bag.
+//   merged_k vector, merged_k:w vector), with the set the specification assigns to the bag.
+//   The statistics are requested with the plain descriptor (-m k, OptionStatOn("k")), the weighted
+//   one (-m k:w: weight of a record = its attribute w) or both, in either order.
 //   Library runs are executed in child processes (p06_proc.go): a panic of the code under test is a
 //   reported violation, not a dead harness.
 // record: seeded random data sets of ~10^3 records through the library and the binaries; events for
@@ -53,6 +57,9 @@ type c06Cfg struct {
 	Variant   int    `json:"variant"`   // realisation of the sequence identifiers as nucleotide strings
 	Big       int    `json:"big"`       // > 0: every sequence is about Big kilobases long
 	NAValue   string `json:"na"`        // the --na-value / OptionNAValue of the run ("" = NA): a renaming of the abstract NA
+	MOrder    int    `json:"morder"`    // both descriptors requested: 0 = -m k -m k:w, 1 = -m k:w -m k, 2 (lib) = two OptionStatOn calls
+	WType     int    `json:"wtype"`     // lib: the attribute w is 0 an int, 1 a float64 (what a JSON header gives), 2 an int64
+	Split     int    `json:"split"`     // levels pass2 / pass2bin: the first Split records (in the order Perm) make the first part
 }
 
 func (c *c06Cfg) na() string {
@@ -94,10 +101,20 @@ type urec struct {
 	Seq   string
 	Cat   []string
 	Count int
-	Mt    string
+	Mt    string // none | val | map | both
 	Mv    string
 	Mm    []int
+	W     int    // attribute w, c06wNoW when absent
+	Wt    string // none | map
+	Wm    []int  // merged_k:w
 }
+
+const c06wNoW = -1
+const c06wSlot = "merged_k:w"
+const c06wDesc = "k:w"
+
+// options of a case: <<ncat, -m k, --no-singleton, -m k:w>> (the last one absent in cases written before the weighted descriptor)
+func c06wWants(opt []int) bool { return len(opt) > 3 && opt[3] == 1 }
 
 func init() {
 	register("C06", &driver{replay: replayC06, record: recordC06})
@@ -147,8 +164,14 @@ func anyInts(v any) []int {
 func decodeRecs(in [][]any) []urec {
 	rs := make([]urec, 0, len(in))
 	for _, t := range in {
-		rs = append(rs, urec{Seq: fmt.Sprint(t[0]), Cat: anyStrings(t[1]), Count: anyInt(t[2]),
-			Mt: fmt.Sprint(t[3]), Mv: fmt.Sprint(t[4]), Mm: anyInts(t[5])})
+		r := urec{Seq: fmt.Sprint(t[0]), Cat: anyStrings(t[1]), Count: anyInt(t[2]),
+			Mt: fmt.Sprint(t[3]), Mv: fmt.Sprint(t[4]), Mm: anyInts(t[5]), W: c06wNoW, Wt: "none"}
+		if len(t) >= 9 {
+			r.W, r.Wt, r.Wm = anyInt(t[6]), fmt.Sprint(t[7]), anyInts(t[8])
+		} else {
+			r.Wm = make([]int, len(r.Mm))
+		}
+		rs = append(rs, r)
 	}
 	return rs
 }
@@ -163,7 +186,16 @@ func joinInts(v []int) string {
 
 // canonical text of an output tuple <<seq, cat, count, vector>> of the specification
 func canonOutTuple(t []any) string {
-	return fmt.Sprint(t[0]) + "|" + strings.Join(anyStrings(t[1]), ",") + "|" + strconv.Itoa(anyInt(t[2])) + "|" + joinInts(anyInts(t[3]))
+	s := fmt.Sprint(t[0]) + "|" + strings.Join(anyStrings(t[1]), ",") + "|" + strconv.Itoa(anyInt(t[2])) + "|" + joinInts(anyInts(t[3]))
+	if len(t) >= 5 {
+		return s + "|" + joinInts(anyInts(t[4]))
+	}
+	return s + "|" + joinInts(make([]int, len(anyInts(t[3]))))
+}
+
+// the same without the merged_k:w vector (third stage of the uniq / demerge / uniq law, which asks for -m k only)
+func c06wCanonPlain(t []any) string {
+	return canonOutTuple([]any{t[0], t[1], t[2], t[3]})
 }
 
 // canonical text of a demerged tuple <<seq, cat, count, value>>
@@ -239,14 +271,28 @@ func recAttributes(i int, r urec, keys []string, cfg *c06Cfg, forJSON bool) map[
 	}
 	a["rank"] = i // an attribute that differs between the records of a class
 	a["origin"] = "verif"
-	switch r.Mt {
-	case "val":
+	if r.Mt == "val" || r.Mt == "both" {
 		if r.Mv == "7" {
 			a["k"] = 7 // a numeric attribute value: counted under its text
 		} else {
 			a["k"] = cfg.spell(r.Mv)
 		}
-	case "map":
+	}
+	if r.W != c06wNoW {
+		switch {
+		case forJSON || cfg.WType == 0:
+			a["w"] = r.W
+		case cfg.WType == 1:
+			a["w"] = float64(r.W)
+		default:
+			a["w"] = int64(r.W)
+		}
+	}
+	if r.Wt == "map" {
+		a[c06wSlot] = c06wMapValue(r.Wm, keys, cfg, forJSON, (cfg.MapType+1)%3)
+	}
+	switch r.Mt {
+	case "map", "both":
 		switch {
 		case forJSON || cfg.MapType == 1:
 			m := map[string]int{}
@@ -275,6 +321,35 @@ func recAttributes(i int, r urec, keys []string, cfg *c06Cfg, forJSON bool) map[
 		}
 	}
 	return a
+}
+
+// c06wMapValue: a statistics map in one of the Go types the code under test accepts
+func c06wMapValue(vec []int, keys []string, cfg *c06Cfg, forJSON bool, maptype int) any {
+	switch {
+	case forJSON || maptype == 1:
+		m := map[string]int{}
+		for j, w := range vec {
+			if w > 0 {
+				m[cfg.spell(keys[j])] = w
+			}
+		}
+		return m
+	case maptype == 0:
+		m := obiseq.StatsOnValues{}
+		for j, w := range vec {
+			if w > 0 {
+				m[cfg.spell(keys[j])] = w
+			}
+		}
+		return m
+	}
+	m := map[string]interface{}{}
+	for j, w := range vec {
+		if w > 0 {
+			m[cfg.spell(keys[j])] = float64(w)
+		}
+	}
+	return m
 }
 
 // one real output record, before abstraction
@@ -315,9 +390,42 @@ func attrInt(v any) (int, bool) {
 	return 0, false
 }
 
-// abstract turns a real output record into the tuple <<seq, cat, count, vector>> (merge requested)
-// or <<seq, cat, count, zero vector>>; bad = it has no image in the abstract domain.
-func (d *decoder) abstract(o orec, ncat int, merge bool) (tuple []any, bad string) {
+// c06wDecodeStats turns a real statistics map into the weight vector of the specification; minw = smallest
+// weight an entry may have (1 in merged_k: a value present has been counted; 0 in merged_k:w, where a value of
+// total weight 0 and an absent value are the same thing)
+func (d *decoder) c06wDecodeStats(slot string, v any, minw int) (vec []int, bad string) {
+	vec = make([]int, len(d.keys))
+	set := func(k string, w int, isInt bool) {
+		j, known := d.kidx[d.cfg.unspell(k)]
+		if !known || !isInt || w < minw {
+			bad = fmt.Sprintf("%s entry %q:%v", slot, k, w)
+			return
+		}
+		vec[j] += w
+	}
+	switch m := v.(type) {
+	case obiseq.StatsOnValues:
+		for k, w := range m {
+			set(k, w, true)
+		}
+	case map[string]int:
+		for k, w := range m {
+			set(k, w, true)
+		}
+	case map[string]interface{}:
+		for k, w := range m {
+			wi, isInt := attrInt(w)
+			set(k, wi, isInt)
+		}
+	default:
+		bad = fmt.Sprintf("%s has type %T", slot, v)
+	}
+	return vec, bad
+}
+
+// abstract turns a real output record into the tuple <<seq, cat, count, vector of merged_k, vector of merged_k:w>>
+// (a vector is zero when its descriptor was not requested); bad = it has no image in the abstract domain.
+func (d *decoder) abstract(o orec, ncat int, merge bool, wmerge bool) (tuple []any, bad string) {
 	id, ok := d.rev[o.seq]
 	if !ok {
 		id = "?" + o.seq
@@ -348,39 +456,77 @@ func (d *decoder) abstract(o orec, ncat int, merge bool) (tuple []any, bad strin
 		if !ok {
 			bad = "no merged_k"
 		} else {
-			set := func(k string, w int, isInt bool) {
-				j, known := d.kidx[d.cfg.unspell(k)]
-				if !known || !isInt || w <= 0 {
-					bad = fmt.Sprintf("merged_k entry %q:%v", k, w)
-					return
-				}
-				vec[j] += w
-			}
-			switch m := v.(type) {
-			case obiseq.StatsOnValues:
-				for k, w := range m {
-					set(k, w, true)
-				}
-			case map[string]int:
-				for k, w := range m {
-					set(k, w, true)
-				}
-			case map[string]interface{}:
-				for k, w := range m {
-					wi, isInt := attrInt(w)
-					set(k, wi, isInt)
-				}
-			default:
-				bad = fmt.Sprintf("merged_k has type %T", v)
+			var b string
+			if vec, b = d.c06wDecodeStats("merged_k", v, 1); b != "" {
+				bad = b
 			}
 		}
 	}
-	return []any{id, cats, count, vec}, bad
+	wvec := make([]int, len(d.keys))
+	if wmerge {
+		v, ok := o.attrs[c06wSlot]
+		if !ok {
+			bad = "no " + c06wSlot
+		} else {
+			var b string
+			if wvec, b = d.c06wDecodeStats(c06wSlot, v, 0); b != "" {
+				bad = b
+			}
+		}
+	}
+	return []any{id, cats, count, vec, wvec}, bad
+}
+
+// c06wAsInput reads a real output record of a first pass back as an INPUT record of the specification (trace
+// events "pass2"): whatever it carries - k, w, merged_k, merged_k:w - is reported as it is.
+func (d *decoder) c06wAsInput(o orec, ncat int, ncatAll int) (tuple []any, bad string) {
+	t, bad := d.abstract(o, ncat, false, false)
+	cats := t[1].([]string)
+	for len(cats) < ncatAll {
+		cats = append(cats, c06Missing)
+	}
+	mt, mv := "none", ""
+	if v, ok := o.attrs["k"]; ok {
+		mt, mv = "val", d.cfg.unspell(fmt.Sprint(v))
+		if _, known := d.kidx[mv]; !known {
+			bad = "unknown value of k " + mv
+		}
+	}
+	mm := make([]int, len(d.keys))
+	if v, ok := o.attrs["merged_k"]; ok {
+		var b string
+		if mm, b = d.c06wDecodeStats("merged_k", v, 1); b != "" {
+			bad = b
+		}
+		if mt == "val" {
+			mt = "both"
+		} else {
+			mt = "map"
+		}
+	}
+	w := c06wNoW
+	if v, ok := o.attrs["w"]; ok {
+		wi, isInt := attrInt(v)
+		if !isInt || wi < 0 {
+			bad = fmt.Sprintf("attribute w = %v", v)
+		}
+		w = wi
+	}
+	wt := "none"
+	wm := make([]int, len(d.keys))
+	if v, ok := o.attrs[c06wSlot]; ok {
+		var b string
+		if wm, b = d.c06wDecodeStats(c06wSlot, v, 0); b != "" {
+			bad = b
+		}
+		wt = "map"
+	}
+	return []any{t[0], cats, t[2], mt, mv, mm, w, wt, wm}, bad
 }
 
 // abstractDem: a demerged record -> <<seq, cat, count, value of k>>
 func (d *decoder) abstractDem(o orec, ncat int) (tuple []any, bad string) {
-	t, bad := d.abstract(o, ncat, false)
+	t, bad := d.abstract(o, ncat, false, false)
 	v, ok := o.attrs["k"]
 	if !ok {
 		bad = "no attribute k"
@@ -404,9 +550,8 @@ var c06Patience = 60 * time.Second
 // (each costs the whole patience; the violation is already recorded)
 var c06Hung = map[string]*int64{"mem": new(int64), "disk": new(int64), "bin/mem": new(int64), "bin/disk": new(int64)}
 
-// runLib drives obichunk.IUniqueSequence with the records in the order cfg.Perm.
-func runLib(recs []urec, opt []int, keys []string, cfg *c06Cfg) libResult {
-	n := len(recs)
+// c06wOrder: the arrival order of the records of a case
+func c06wOrder(n int, cfg *c06Cfg) []int {
 	order := cfg.Perm
 	if len(order) != n {
 		order = make([]int, n)
@@ -414,8 +559,14 @@ func runLib(recs []urec, opt []int, keys []string, cfg *c06Cfg) libResult {
 			order[i] = i
 		}
 	}
-	seqs := make([]*obiseq.BioSequence, 0, n)
-	for pos, i := range order {
+	return order
+}
+
+// c06wBuildSeqs: the real records standing for the abstract records recs[order[from:to]]
+func c06wBuildSeqs(recs []urec, keys []string, cfg *c06Cfg, order []int, from, to int) []*obiseq.BioSequence {
+	seqs := make([]*obiseq.BioSequence, 0, to-from)
+	for pos := from; pos < to; pos++ {
+		i := order[pos]
 		r := recs[i]
 		s := obiseq.NewBioSequence("r"+strconv.Itoa(pos), []byte(seqString(r.Seq, cfg.Variant, cfg.Big)), "")
 		for k, v := range recAttributes(i, r, keys, cfg, false) {
@@ -423,6 +574,30 @@ func runLib(recs []urec, opt []int, keys []string, cfg *c06Cfg) libResult {
 		}
 		seqs = append(seqs, s)
 	}
+	return seqs
+}
+
+// c06wStatOptions: the requested statistics, in the order the configuration says
+func c06wStatOptions(opt []int, cfg *c06Cfg) []obichunk.WithOption {
+	plain, weighted := opt[1] == 1, c06wWants(opt)
+	switch {
+	case plain && weighted && cfg.MOrder == 0:
+		return []obichunk.WithOption{obichunk.OptionStatOn("k", c06wDesc)}
+	case plain && weighted && cfg.MOrder == 1:
+		return []obichunk.WithOption{obichunk.OptionStatOn(c06wDesc, "k")}
+	case plain && weighted:
+		return []obichunk.WithOption{obichunk.OptionStatOn(c06wDesc), obichunk.OptionStatOn("k")}
+	case plain:
+		return []obichunk.WithOption{obichunk.OptionStatOn("k")}
+	case weighted:
+		return []obichunk.WithOption{obichunk.OptionStatOn(c06wDesc)}
+	}
+	return nil
+}
+
+// c06wRunSeqs drives obichunk.IUniqueSequence on real records and returns the real output records.
+func c06wRunSeqs(seqs []*obiseq.BioSequence, opt []int, cfg *c06Cfg, withNs bool) (outSeqs []*obiseq.BioSequence, status string) {
+	n := len(seqs)
 	bs := cfg.Batch
 	if bs <= 0 {
 		bs = n + 1
@@ -451,44 +626,113 @@ func runLib(recs []urec, opt []int, keys []string, cfg *c06Cfg) libResult {
 	} else {
 		options = append(options, obichunk.OptionSortOnMemory())
 	}
-	if opt[2] == 1 {
+	if withNs && opt[2] == 1 {
 		options = append(options, obichunk.OptionsNoSingleton())
 	}
-	if opt[1] == 1 {
-		options = append(options, obichunk.OptionStatOn("k"))
-	}
+	options = append(options, c06wStatOptions(opt, cfg)...)
 	cats := []string{}
 	for i := 0; i < opt[0]; i++ {
 		cats = append(cats, catName(i))
 	}
 	options = append(options, obichunk.OptionSubCategory(cats...))
 
-	res := libResult{status: "ok"}
+	status = "ok"
+	var collected []*obiseq.BioSequence
 	done := make(chan struct{})
 	go func() {
 		defer close(done)
 		out, err := obichunk.IUniqueSequence(it, options...)
 		if err != nil {
-			res.status = "error:" + err.Error()
+			status = "error:" + err.Error()
 			return
 		}
 		for out.Next() {
 			b := out.Get()
-			for _, s := range b.Slice() {
-				a := map[string]any{}
-				if s.HasAnnotation() {
-					for k, v := range s.Annotations() {
-						a[k] = v
-					}
-				}
-				res.out = append(res.out, orec{seq: s.String(), attrs: a})
-			}
+			collected = append(collected, b.Slice()...)
 		}
 	}()
 	if !waitTimeout(done, c06Patience) {
-		return libResult{status: "hung"}
+		return nil, "hung"
 	}
-	return res
+	return collected, status
+}
+
+func c06wOrecs(seqs []*obiseq.BioSequence) []orec {
+	out := make([]orec, 0, len(seqs))
+	for _, s := range seqs {
+		a := map[string]any{}
+		if s.HasAnnotation() {
+			for k, v := range s.Annotations() {
+				// a later pass adds to the maps of the records it absorbs into: keep what this pass delivered
+				switch m := v.(type) {
+				case obiseq.StatsOnValues:
+					c := obiseq.StatsOnValues{}
+					for x, y := range m {
+						c[x] = y
+					}
+					v = c
+				case map[string]int:
+					c := map[string]int{}
+					for x, y := range m {
+						c[x] = y
+					}
+					v = c
+				case map[string]interface{}:
+					c := map[string]interface{}{}
+					for x, y := range m {
+						c[x] = y
+					}
+					v = c
+				}
+				a[k] = v
+			}
+		}
+		out = append(out, orec{seq: s.String(), attrs: a})
+	}
+	return out
+}
+
+// runLib drives obichunk.IUniqueSequence with the records in the order cfg.Perm.
+func runLib(recs []urec, opt []int, keys []string, cfg *c06Cfg) libResult {
+	order := c06wOrder(len(recs), cfg)
+	out, status := c06wRunSeqs(c06wBuildSeqs(recs, keys, cfg, order, 0, len(recs)), opt, cfg, true)
+	if status != "ok" {
+		return libResult{status: status}
+	}
+	return libResult{out: c06wOrecs(out), status: "ok"}
+}
+
+// c06wRunLibPass2: the first cfg.Split records (in arrival order) and the others are dereplicated separately (with
+// singletons), the real output records of the two runs are dereplicated together with the options of the case.
+// parts = the real output records of the two first passes.
+func c06wRunLibPass2(recs []urec, opt []int, keys []string, cfg *c06Cfg) (res libResult, parts []orec) {
+	order := c06wOrder(len(recs), cfg)
+	cut := cfg.Split
+	if cut < 0 || cut > len(recs) {
+		cut = len(recs) / 2
+	}
+	first := *cfg
+	first.Chunks = 1 + cfg.Chunks%3 // the first passes need not be configured like the second one
+	a, st := c06wRunSeqs(c06wBuildSeqs(recs, keys, cfg, order, 0, cut), opt, &first, false)
+	if st != "ok" {
+		return libResult{status: st}, nil
+	}
+	b, st := c06wRunSeqs(c06wBuildSeqs(recs, keys, cfg, order, cut, len(recs)), opt, &first, false)
+	if st != "ok" {
+		return libResult{status: st}, nil
+	}
+	both := append(append([]*obiseq.BioSequence{}, a...), b...)
+	parts = c06wOrecs(both)
+	if cfg.Perm != nil && len(cfg.Perm) > 0 && cfg.Perm[0] != 0 { // the second pass does not always see the first part first
+		for i, j := 0, len(both)-1; i < j; i, j = i+1, j-1 {
+			both[i], both[j] = both[j], both[i]
+		}
+	}
+	out, st := c06wRunSeqs(both, opt, cfg, true)
+	if st != "ok" {
+		return libResult{status: st}, parts
+	}
+	return libResult{out: c06wOrecs(out), status: "ok"}, parts
 }
 
 // runDemergeLib applies the real obidemerge worker to merged records
@@ -514,16 +758,15 @@ func runDemergeLib(in []orec) (out []orec) {
 // ---------------------------------------------------------------------------------- binary level
 
 func writeFasta(path string, recs []urec, keys []string, cfg *c06Cfg) error {
-	n := len(recs)
-	order := cfg.Perm
-	if len(order) != n {
-		order = make([]int, n)
-		for i := range order {
-			order[i] = i
-		}
-	}
+	return c06wWriteFastaPart(path, recs, keys, cfg, 0, len(recs))
+}
+
+// c06wWriteFastaPart writes the records of arrival positions from..to-1
+func c06wWriteFastaPart(path string, recs []urec, keys []string, cfg *c06Cfg, from, to int) error {
+	order := c06wOrder(len(recs), cfg)
 	var buf bytes.Buffer
-	for pos, i := range order {
+	for pos := from; pos < to; pos++ {
+		i := order[pos]
 		r := recs[i]
 		h, err := json.Marshal(recAttributes(i, r, keys, cfg, true))
 		if err != nil {
@@ -631,8 +874,15 @@ func uniqArgs(opt []int, cfg *c06Cfg, withNs bool, file string) []string {
 	if cfg.NAValue != "" {
 		a = append(a, "--na-value", cfg.NAValue)
 	}
-	if opt[1] == 1 {
+	switch plain, weighted := opt[1] == 1, c06wWants(opt); {
+	case plain && weighted && cfg.MOrder != 1:
+		a = append(a, "-m", "k", "-m", c06wDesc)
+	case plain && weighted:
+		a = append(a, "-m", c06wDesc, "-m", "k")
+	case plain:
 		a = append(a, "-m", "k")
+	case weighted:
+		a = append(a, "-m", c06wDesc)
 	}
 	for i := 0; i < opt[0]; i++ {
 		a = append(a, "-c", catName(i))
@@ -714,13 +964,16 @@ func configsFor(c *c06Case, level string, runs int, seed int64) []*c06Cfg {
 			perm = perms[k]
 		}
 		cfg := &c06Cfg{Level: level, Perm: perm, Workers: c06Workers[(x/2)%3], Chunks: c06Chunks[(x/6)%3],
-			MapType: x % 3, Explicit1: (x/3)%2 == 0, Variant: (x / 4) % 6}
+			MapType: x % 3, Explicit1: (x/3)%2 == 0, Variant: (x / 4) % 6, MOrder: (x / 3) % 3, WType: (x / 2) % 3}
+		if n > 0 {
+			cfg.Split = (x / 7) % (n + 1)
+		}
 		if x%2 == 0 {
 			cfg.Mode = "mem"
 		} else {
 			cfg.Mode = "disk"
 		}
-		if level == "lib" {
+		if level == "lib" || level == "pass2" {
 			cfg.Mode = "mem"
 			if x%c06DiskEvery == c06DiskEvery-1 {
 				cfg.Mode = "disk"
@@ -738,7 +991,7 @@ func configsFor(c *c06Case, level string, runs int, seed int64) []*c06Cfg {
 		if level == "bin" && len(c.Opt) > 1 && c.Opt[0] == 0 && c.Opt[1] == 1 && k%2 == 0 {
 			cfg.NAValue = "none"
 		}
-		if level != "lib" {
+		if level != "lib" && level != "pass2" {
 			cfg.Batch = []int{0, 1, 2, 10}[(x/2)%4]
 			if cfg.Mode == "disk" && x%8 == 1 && n > 0 {
 				cfg.Big = 600 // long sequences: the chunk files take time to be written
@@ -751,7 +1004,14 @@ func configsFor(c *c06Case, level string, runs int, seed int64) []*c06Cfg {
 }
 
 func classOf(c *c06Case, cfg *c06Cfg) string {
-	return fmt.Sprintf("%s/%s/cat%d/m%d/ns%d", cfg.Level, cfg.Mode, c.Opt[0], c.Opt[1], c.Opt[2])
+	cls := fmt.Sprintf("%s/%s/cat%d/m%d/ns%d", cfg.Level, cfg.Mode, c.Opt[0], c.Opt[1], c.Opt[2])
+	if c06wWants(c.Opt) {
+		cls += "/w1"
+		if c.Opt[1] == 1 {
+			cls += fmt.Sprintf("/order%d", cfg.MOrder)
+		}
+	}
+	return cls
 }
 
 func diffLists(got, want []string) string {
@@ -765,13 +1025,14 @@ func runOne(env *Env, c *c06Case, cfg *c06Cfg, bindir, scratch string) int {
 	want := sortedCanon(c.Out, canonOutTuple)
 	cls := classOf(c, cfg)
 	merge := c.Opt[1] == 1
+	wmerge := c06wWants(c.Opt)
 	cc := *c
 	cc.Cfg = cfg
-	decodeAll := func(os []orec, ncat int, m bool) ([]string, string) {
+	decodeAllW := func(os []orec, ncat int, m bool, wm bool) ([]string, string) {
 		got := make([]string, 0, len(os))
 		bad := ""
 		for _, o := range os {
-			t, b := dec.abstract(o, ncat, m)
+			t, b := dec.abstract(o, ncat, m, wm)
 			if b != "" {
 				bad = b
 			}
@@ -780,6 +1041,7 @@ func runOne(env *Env, c *c06Case, cfg *c06Cfg, bindir, scratch string) int {
 		sort.Strings(got)
 		return got, bad
 	}
+	decodeAll := func(os []orec, ncat int, m bool) ([]string, string) { return decodeAllW(os, ncat, m, wmerge) }
 	equal := func(a, b []string) bool {
 		if len(a) != len(b) {
 			return false
@@ -824,31 +1086,52 @@ func runOne(env *Env, c *c06Case, cfg *c06Cfg, bindir, scratch string) int {
 		if tg != tw {
 			return "count"
 		}
-		return "merged"
+		// the requested maps: merged_k first, then merged_k:w
+		plain := func(l []string) []string {
+			out := make([]string, len(l))
+			for i, s := range l {
+				out[i] = s[:strings.LastIndex(s, "|")]
+			}
+			sort.Strings(out)
+			return out
+		}
+		if !equal(plain(got), plain(want)) {
+			return "merged"
+		}
+		return "wmerged"
 	}
 	switch cfg.Level {
-	case "lib":
+	case "lib", "pass2":
 		if h := c06Hung[cfg.Mode]; h != nil && atomic.LoadInt64(h) >= 3 {
 			env.mu.Lock()
 			env.classes["lib/skipped-after-hangs"]++
 			env.mu.Unlock()
 			return 0
 		}
-		r := runLib(recs, c.Opt, c.Keys, cfg)
+		var r libResult
+		if cfg.Level == "pass2" {
+			r, _ = c06wRunLibPass2(recs, c.Opt, c.Keys, cfg)
+		} else {
+			r = runLib(recs, c.Opt, c.Keys, cfg)
+		}
 		if r.status == "hung" {
 			if h := c06Hung[cfg.Mode]; h != nil {
 				atomic.AddInt64(h, 1)
 			}
 		}
 		if r.status != "ok" {
-			env.fail("C06.lib."+strings.SplitN(r.status, ":", 2)[0], cls, fmt.Sprintf("IUniqueSequence %s (fatal messages: %v)", r.status, fatalMessages()), cc)
+			env.fail("C06."+cfg.Level+"."+strings.SplitN(r.status, ":", 2)[0], cls, fmt.Sprintf("IUniqueSequence %s (fatal messages: %v)", r.status, fatalMessages()), cc)
 			return 1
 		}
 		got, bad := decodeAll(r.out, c.Opt[0], merge)
+		what := ""
+		if cfg.Level == "pass2" {
+			what = fmt.Sprintf("two passes (the first %d records, the others), then one pass on their output records: ", cfg.Split)
+		}
 		if bad != "" {
-			env.fail("C06.lib.output_shape", cls, bad+": "+diffLists(got, want), cc)
+			env.fail("C06."+cfg.Level+".output_shape", cls, what+bad+": "+diffLists(got, want), cc)
 		} else if !equal(got, want) {
-			env.fail("C06.lib."+kind(got, want), cls, diffLists(got, want), cc)
+			env.fail("C06."+cfg.Level+"."+kind(got, want), cls, what+diffLists(got, want), cc)
 		} else {
 			env.ok(cls)
 			return 1
@@ -886,6 +1169,66 @@ func runOne(env *Env, c *c06Case, cfg *c06Cfg, bindir, scratch string) int {
 		if bad != "" || !equal(got, wantD) {
 			env.fail("C06.demerge.records", cls, bad+" "+diffLists(got, wantD), cc)
 		} else {
+			env.ok(cls)
+		}
+		return 1
+	case "pass2bin":
+		// obiuniq <opts> part1 > u1 ; obiuniq <opts> part2 > u2 ; cat u1 u2 | obiuniq <opts> [--no-singleton]
+		if h := c06Hung["bin/"+cfg.Mode]; h != nil && atomic.LoadInt64(h) >= 2 {
+			env.mu.Lock()
+			env.classes["bin/skipped-after-hangs"]++
+			env.mu.Unlock()
+			return 0
+		}
+		dir, err := os.MkdirTemp(scratch, "c06p2")
+		if err != nil {
+			fmt.Fprintln(os.Stderr, err)
+			os.Exit(2)
+		}
+		defer os.RemoveAll(dir)
+		cut := cfg.Split
+		if cut < 0 || cut > len(recs) {
+			cut = len(recs) / 2
+		}
+		uniq := filepath.Join(bindir, "obiuniq")
+		var all bytes.Buffer
+		for part, lim := range [][2]int{{0, cut}, {cut, len(recs)}} {
+			in := filepath.Join(dir, fmt.Sprintf("in%d.fasta", part))
+			if err := c06wWriteFastaPart(in, recs, c.Keys, cfg, lim[0], lim[1]); err != nil {
+				fmt.Fprintln(os.Stderr, err)
+				os.Exit(2)
+			}
+			u := filepath.Join(dir, fmt.Sprintf("u%d.fasta", part))
+			args := uniqArgs(c.Opt, cfg, false, in)
+			args = append(args[:len(args)-1:len(args)-1], "-o", u, in)
+			r := runBin(uniq, args, dir)
+			if r.hung || r.rc != 0 {
+				if r.hung {
+					atomic.AddInt64(c06Hung["bin/"+cfg.Mode], 1)
+				}
+				env.fail("C06.pass2bin.exit_status", cls, fmt.Sprintf("first pass on part %d: obiuniq %s -> rc=%d hung=%v %s", part, strings.Join(args[:len(args)-1], " "), r.rc, r.hung, r.stderr), cc)
+				return 1
+			}
+			data, _ := os.ReadFile(u)
+			all.Write(data)
+		}
+		u12 := filepath.Join(dir, "u12.fasta")
+		os.WriteFile(u12, all.Bytes(), 0644)
+		args := uniqArgs(c.Opt, cfg, true, u12)
+		r := runBin(uniq, args, dir)
+		cmdline := fmt.Sprintf("obiuniq on the first %d records, on the others, then obiuniq %s on the two outputs", cut, strings.Join(args[:len(args)-1], " "))
+		got, bad := decodeAll(r.out, c.Opt[0], merge)
+		switch {
+		case r.hung:
+			atomic.AddInt64(c06Hung["bin/"+cfg.Mode], 1)
+			env.fail("C06.pass2bin.hung", cls, cmdline+" did not terminate", cc)
+		case r.rc != 0:
+			env.fail("C06.pass2bin.exit_status", cls, fmt.Sprintf("%s -> rc=%d %s", cmdline, r.rc, r.stderr), cc)
+		case r.perr != "" || bad != "":
+			env.fail("C06.pass2bin.output_shape", cls, cmdline+": "+r.perr+" "+bad+": "+diffLists(got, want), cc)
+		case !equal(got, want):
+			env.fail("C06.pass2bin."+kind(got, want), cls, cmdline+": "+diffLists(got, want), cc)
+		default:
 			env.ok(cls)
 		}
 		return 1
@@ -976,9 +1319,14 @@ func runOne(env *Env, c *c06Case, cfg *c06Cfg, bindir, scratch string) int {
 			fmt.Fprintf(&b2, ">d%d %s\n%s\n", i, h, o.seq)
 		}
 		os.WriteFile(df, b2.Bytes(), 0644)
-		args3 := uniqArgs(c.Opt, cfg, false, df)
+		// the last stage asks for -m k only (every demerged record is a copy that carries the whole merged_k:w map, if
+		// any); merged_k and the counts of the first stage must come back
+		args3 := uniqArgs([]int{c.Opt[0], 1, 0, 0}, cfg, false, df)
 		r3 := runBin(uniq, args3, dir)
-		got3, bad3 := decodeAll(r3.out, c.Opt[0], true)
+		got3, bad3 := decodeAllW(r3.out, c.Opt[0], true, false)
+		if wmerge {
+			want = sortedCanon(c.Out, c06wCanonPlain)
+		}
 		if r3.rc != 0 || r3.hung || bad3 != "" || r3.perr != "" || !equal(got3, want) {
 			env.fail("C06.law.uniq_demerge_uniq", cls, fmt.Sprintf("obiuniq -m k | obidemerge -d k | obiuniq -m k: rc=%d %s %s: %s", r3.rc, r3.stderr, bad3, diffLists(got3, want)), cc)
 			return 3
@@ -1078,6 +1426,8 @@ type c06Event struct {
 	Ncat    int      `json:"ncat"`
 	Merge   int      `json:"merge"`
 	Ns      int      `json:"ns"`
+	Wmerge  int      `json:"wmerge"` // -m k:w requested
+	Morder  int      `json:"morder"`
 	Hung    int      `json:"hung"`
 	Rc      int      `json:"rc"`
 	Bad     int      `json:"bad"`
@@ -1099,7 +1449,8 @@ func randomDataset(rng *rand.Rand, n int) []urec {
 	for i := 0; i < n; i++ {
 		// skewed abundance: a few sequences are very frequent, many are rare
 		s := int(float64(nseq) * rng.Float64() * rng.Float64())
-		r := urec{Seq: "s" + strconv.Itoa(s), Cat: make([]string, 3), Count: 1, Mt: "none", Mm: make([]int, len(c06TraceKeys))}
+		r := urec{Seq: "s" + strconv.Itoa(s), Cat: make([]string, 3), Count: 1, Mt: "none", Mm: make([]int, len(c06TraceKeys)),
+			W: c06wNoW, Wt: "none", Wm: make([]int, len(c06TraceKeys))}
 		for j := range r.Cat {
 			r.Cat[j] = catvals[rng.Intn(ncv)]
 		}
@@ -1118,6 +1469,27 @@ func randomDataset(rng *rand.Rand, n int) []urec {
 				r.Mm[rng.Intn(len(r.Mm))] += w
 				r.Count += w
 			}
+			if rng.Intn(4) == 0 { // a class of one record of an earlier pass: it still has its k
+				r.Mt = "both"
+				r.Mv = c06TraceKeys[rng.Intn(len(c06TraceKeys))]
+			}
+		}
+		// the weight attribute: absent, 0, small, large
+		switch x := rng.Intn(8); {
+		case x == 0:
+		case x == 1:
+			r.W = 0
+		case x < 6:
+			r.W = 1 + rng.Intn(9)
+		default:
+			r.W = 10 + rng.Intn(5000)
+		}
+		// already has a merged_k:w map (with or without a merged_k map, a k, a w)
+		if rng.Intn(4) == 0 {
+			r.Wt = "map"
+			for k := 0; k < 1+rng.Intn(3); k++ {
+				r.Wm[rng.Intn(len(r.Wm))] += 1 + rng.Intn(40)
+			}
 		}
 		recs = append(recs, r)
 	}
@@ -1127,7 +1499,7 @@ func randomDataset(rng *rand.Rand, n int) []urec {
 func encodeRecs(recs []urec) [][]any {
 	out := make([][]any, 0, len(recs))
 	for _, r := range recs {
-		out = append(out, []any{r.Seq, r.Cat, r.Count, r.Mt, r.Mv, r.Mm})
+		out = append(out, []any{r.Seq, r.Cat, r.Count, r.Mt, r.Mv, r.Mm, r.W, r.Wt, r.Wm})
 	}
 	return out
 }
@@ -1145,22 +1517,23 @@ func recordC06(env *Env) {
 	size := env.optInt("size", 1000)
 	nbin := env.optInt("nbin", env.n/3)
 	type job struct {
-		seed int64
-		bin  bool
+		seed  int64
+		bin   bool
+		pass2 bool
 	}
 	jobs := []job{}
 	for i := 0; i < env.n; i++ {
-		jobs = append(jobs, job{env.seed*7919 + int64(i), i < nbin && bindir != ""})
+		jobs = append(jobs, job{env.seed*7919 + int64(i), i < nbin && bindir != "", i%4 == 3})
 	}
 	if js := env.opt("jobseed", ""); js != "" { // --replay of one recorded event: the same data set and configuration again
 		v, _ := strconv.ParseInt(js, 10, 64)
-		jobs = []job{{v, env.opt("jobbin", "") == "1" && bindir != ""}}
+		jobs = []job{{v, env.opt("jobbin", "") == "1" && bindir != "", env.opt("jobpass2", "") == "1"}}
 	}
 	parallel(len(jobs), env.optInt("par", 8), func(i int) {
 		rng := rand.New(rand.NewSource(jobs[i].seed))
 		n := size/2 + rng.Intn(size)
 		recs := randomDataset(rng, n)
-		opt := []int{rng.Intn(4), 1, 0}
+		opt := []int{rng.Intn(4), 1, 0, 0}
 		if rng.Intn(5) == 0 {
 			opt[1] = 0
 		}
@@ -1170,18 +1543,50 @@ func recordC06(env *Env) {
 		cfg := &c06Cfg{Level: "lib", Perm: nil, Mode: []string{"mem", "disk"}[rng.Intn(2)], Workers: []int{1, 2, 4, 8}[rng.Intn(4)],
 			Chunks: []int{1, 2, 3, 7, 100}[rng.Intn(5)], Batch: []int{1, 3, 10, 100, 0}[rng.Intn(5)], MapType: rng.Intn(3),
 			Explicit1: rng.Intn(2) == 0, Variant: rng.Intn(50), NAValue: []string{"", "", "none"}[rng.Intn(3)]}
+		// the weighted descriptor: requested in 3 runs out of 5 (always in the two-pass runs), alone or with the plain one
+		if rng.Intn(5) < 3 || jobs[i].pass2 {
+			opt[3] = 1
+		}
+		cfg.MOrder, cfg.WType = rng.Intn(3), rng.Intn(3)
+		cfg.Split = rng.Intn(n + 1)
 		dec := newDecoder(recs, c06TraceKeys, cfg)
 		ev := c06Event{Op: "uniq", Level: "lib", Mode: cfg.Mode, Workers: cfg.Workers, Chunks: cfg.Chunks, Batch: cfg.Batch, Ncat: opt[0],
-			Merge: opt[1], Ns: opt[2], Keys: c06TraceKeys, Recs: encodeRecs(recs), Out: [][]any{}, Ref: [][]any{}, Seed: jobs[i].seed, Dist: obioptions.CLIBatchSize()}
-		fill := func(e *c06Event, os []orec, ncat int, merge bool) {
+			Merge: opt[1], Ns: opt[2], Wmerge: opt[3], Morder: cfg.MOrder, Keys: c06TraceKeys, Recs: encodeRecs(recs), Out: [][]any{}, Ref: [][]any{},
+			Seed: jobs[i].seed, Dist: obioptions.CLIBatchSize()}
+		fillW := func(e *c06Event, os []orec, ncat int, merge bool, wmerge bool) {
 			for _, o := range os {
-				t, b := dec.abstract(o, ncat, merge)
+				t, b := dec.abstract(o, ncat, merge, wmerge)
 				if b != "" {
 					e.Bad++
 					e.BadWhy = b
 				}
 				e.Out = append(e.Out, t)
 			}
+		}
+		fill := func(e *c06Event, os []orec, ncat int, merge bool) { fillW(e, os, ncat, merge, opt[3] == 1) }
+		// the output records of the first passes, read back as input records of the second one
+		asInputs := func(e *c06Event, parts []orec) {
+			e.Recs = [][]any{}
+			for _, o := range parts {
+				t, b := dec.c06wAsInput(o, opt[0], 3)
+				if b != "" {
+					e.Bad++
+					e.BadWhy = "first pass: " + b
+				}
+				e.Recs = append(e.Recs, t)
+			}
+		}
+		if jobs[i].pass2 && !jobs[i].bin {
+			ev.Op = "pass2"
+			r, parts := c06wRunLibPass2(recs, opt, c06TraceKeys, cfg)
+			if r.status != "ok" {
+				ev.Hung = 1
+				ev.BadWhy = r.status
+			}
+			asInputs(&ev, parts)
+			fill(&ev, r.out, opt[0], opt[1] == 1)
+			env.emit(ev)
+			return
 		}
 		if !jobs[i].bin {
 			r := runLib(recs, opt, c06TraceKeys, cfg)
@@ -1201,6 +1606,52 @@ func recordC06(env *Env) {
 			os.Exit(2)
 		}
 		defer os.RemoveAll(dir)
+		if jobs[i].pass2 {
+			ev.Op = "pass2"
+			var all bytes.Buffer
+			for part, lim := range [][2]int{{0, cfg.Split}, {cfg.Split, n}} {
+				pin := filepath.Join(dir, fmt.Sprintf("in%d.fasta", part))
+				c06wWriteFastaPart(pin, recs, c06TraceKeys, cfg, lim[0], lim[1])
+				u := filepath.Join(dir, fmt.Sprintf("u%d.fasta", part))
+				a1 := uniqArgs(opt, cfg, false, pin)
+				a1 = append(a1[:len(a1)-1:len(a1)-1], "-o", u, pin)
+				r1 := runBin(filepath.Join(bindir, "obiuniq"), a1, dir)
+				if r1.hung || r1.rc != 0 {
+					ev.Rc, ev.BadWhy = r1.rc, "first pass: "+r1.stderr
+					if r1.hung {
+						ev.Hung = 1
+					}
+					ev.Recs = [][]any{}
+					env.emit(ev)
+					return
+				}
+				data, _ := os.ReadFile(u)
+				all.Write(data)
+			}
+			parts, perr := parseFasta(all.Bytes())
+			asInputs(&ev, parts)
+			if perr != nil {
+				ev.Bad++
+				ev.BadWhy = "first pass: " + perr.Error()
+			}
+			u12 := filepath.Join(dir, "u12.fasta")
+			os.WriteFile(u12, all.Bytes(), 0644)
+			r2 := runBin(filepath.Join(bindir, "obiuniq"), uniqArgs(opt, cfg, true, u12), dir)
+			ev.Rc = r2.rc
+			if r2.hung {
+				ev.Hung = 1
+			}
+			if r2.perr != "" {
+				ev.Bad++
+				ev.BadWhy = r2.perr
+			}
+			if r2.rc != 0 {
+				ev.BadWhy = r2.stderr
+			}
+			fill(&ev, r2.out, opt[0], opt[1] == 1)
+			env.emit(ev)
+			return
+		}
 		in := filepath.Join(dir, "in.fasta")
 		writeFasta(in, recs, c06TraceKeys, cfg)
 		u1 := filepath.Join(dir, "u1.fasta")
@@ -1245,7 +1696,7 @@ func recordC06(env *Env) {
 			}
 			ed.Out = append(ed.Out, t)
 			// the demerged record as an input record of the last stage: categories are now explicit
-			drecs = append(drecs, []any{t[0], t[1], t[2], "val", t[3], make([]int, len(c06TraceKeys))})
+			drecs = append(drecs, []any{t[0], t[1], t[2], "val", t[3], make([]int, len(c06TraceKeys)), c06wNoW, "none", make([]int, len(c06TraceKeys))})
 			h, _ := json.Marshal(o.attrs)
 			fmt.Fprintf(&b2, ">d%d %s\n%s\n", k, h, o.seq)
 		}
@@ -1255,7 +1706,8 @@ func recordC06(env *Env) {
 		}
 		df := filepath.Join(dir, "d.fasta")
 		os.WriteFile(df, b2.Bytes(), 0644)
-		r3 := runBin(filepath.Join(bindir, "obiuniq"), uniqArgs(opt, cfg, false, df), dir)
+		// the last stage asks for -m k only: every demerged record is a copy that still carries the whole merged_k:w map
+		r3 := runBin(filepath.Join(bindir, "obiuniq"), uniqArgs([]int{opt[0], 1, 0, 0}, cfg, false, df), dir)
 		el := c06Event{Op: "law", Level: "bin", Mode: cfg.Mode, Workers: cfg.Workers, Chunks: cfg.Chunks, Batch: cfg.Batch, Ncat: opt[0], Merge: 1, Ns: 0,
 			Keys: c06TraceKeys, Recs: drecs, Out: [][]any{}, Ref: ev.Out, Rc: r3.rc, Seed: jobs[i].seed, Dist: ev.Dist}
 		if r3.hung {
@@ -1265,7 +1717,7 @@ func recordC06(env *Env) {
 			el.Bad++
 			el.BadWhy = r3.perr
 		}
-		fill(&el, r3.out, opt[0], true)
+		fillW(&el, r3.out, opt[0], true, false)
 		env.emit(el)
 	})
 }
